@@ -26,8 +26,11 @@ import (
 // members are fakes whose call blocks until the harness opens their gate (event
 // R0 / R1); a stubborn member (stub = 1) also returns, gate or no gate, as soon
 // as the context it was given is cancelled. Further events: X (the caller
-// cancels), W (wait for the call to return), C (close the returned reader). An
-// implicit "W, C" ends every scenario. Observation:
+// cancels), W (wait for the call to return), C (close the returned reader), and the
+// simultaneous events: P (both gates are opened, from two goroutines released by one
+// barrier), PX0 / PX1 (gate 0 / 1 is opened and the caller cancels, likewise). A trailing
+// r (Pr, PX0r, PX1r) swaps the order in which the two goroutines are started; for the
+// model it is the same event. An implicit "W, C" ends every scenario. Observation:
 //
 //	ret=<ok0|ok1|e0|e1|ctx|hang> closed=<c0><c1> ctx=<x0><x1> live=<1|0|-> leak=<n> dbl=<0|1>
 //
@@ -301,11 +304,42 @@ func c16Run(entry string, ok0, ok1, stub0, stub1 bool, events []string, nest boo
 		}
 		res.r.Close()
 	}
+	// simul runs a and b from two goroutines that are released by the same close(start)
+	simul := func(a, b func(), swap bool) {
+		if swap {
+			a, b = b, a
+		}
+		start := make(chan struct{})
+		var ready, done sync.WaitGroup
+		for _, f := range []func(){a, b} {
+			ready.Add(1)
+			done.Add(1)
+			go func() {
+				defer done.Done()
+				ready.Done()
+				<-start
+				f()
+			}()
+		}
+		ready.Wait()
+		runtime.Gosched() // let both reach the barrier
+		close(start)
+		done.Wait()
+	}
 	for _, ev := range events {
 		switch ev {
 		case "R0", "R1":
 			i := int(ev[1] - '0')
 			open(i)
+			c16Wait(ms[i].returned)
+		case "P", "Pr":
+			simul(func() { open(0) }, func() { open(1) }, ev == "Pr")
+			c16Wait(ms[0].returned)
+			c16Wait(ms[1].returned)
+		case "PX0", "PX1", "PX0r", "PX1r":
+			i := int(ev[2] - '0')
+			cancelled = true
+			simul(func() { open(i) }, cancel, strings.HasSuffix(ev, "r"))
 			c16Wait(ms[i].returned)
 		case "X":
 			cancelled = true
@@ -384,7 +418,7 @@ func c16Parse(l string) (entry string, ok0, ok1, stub0, stub1 bool, events []str
 	}
 	for _, ev := range strings.Split(t[7], ",") {
 		switch ev {
-		case "R0", "R1", "X", "W", "C":
+		case "R0", "R1", "X", "W", "C", "P", "Pr", "PX0", "PX1", "PX0r", "PX1r":
 			events = append(events, ev)
 		default:
 			return
@@ -495,6 +529,46 @@ func (e *c16) Gen(rng *RNG, tier string) []Case {
 			}
 		}
 	}
+	// two events at the same moment: both gates, or a gate and the caller's cancel. The same scenario is
+	// repeated (which of the ready cases Go's select takes, and which goroutine runs first, is the
+	// scheduler's choice): every entry point gets the 52 of c16Simul plus 8 random ones.
+	simreps := 1
+	if tier == "thorough" {
+		simreps = 4
+	}
+	addSimul := func(entry string, ok0, ok1, s0, s1 bool, evs []string) {
+		e.pending = append(e.pending, c16ModelQuery(entry, ok0, ok1, s0, s1, evs))
+		cases = append(cases, Case{Tag: "simul:" + entry, Lines: []string{fmt.Sprintf("uconc run %s %s %s %s %s %s", entry, b01(ok0), b01(ok1), b01(s0), b01(s1), strings.Join(evs, ","))}})
+	}
+	for rep := 0; rep < simreps; rep++ {
+		for _, entry := range c16Entries {
+			for _, sc := range c16Simul {
+				for k := 0; k < sc.reps; k++ {
+					evs := strings.Split(sc.evs, ",")
+					if k%2 == 1 {
+						evs = c16SwapStart(evs)
+					}
+					addSimul(entry, sc.ok0, sc.ok1, sc.s0, sc.s1, evs)
+				}
+			}
+			for k := 0; k < 8; k++ {
+				var evs []string
+				if rng.Chance(1, 3) {
+					evs = append(evs, pick(rng, []string{"X", "R0", "R1"}))
+				}
+				switch ev := pick(rng, []string{"P", "Pr", "PX0", "PX1", "PX0r", "PX1r"}); ev {
+				case "P", "Pr":
+					evs = append(evs, ev)
+				default:
+					evs = append(evs, ev, "R"+string(rune('0'+('1'-ev[2])))) // the other gate is opened afterwards
+				}
+				if rng.Chance(1, 3) {
+					evs = append(evs, "X")
+				}
+				addSimul(entry, rng.Bool(), rng.Bool(), rng.Chance(1, 4), rng.Chance(1, 4), evs)
+			}
+		}
+	}
 	// a few random longer sequences (repeated events are harmless)
 	n := 60
 	if tier == "thorough" {
@@ -511,6 +585,45 @@ func (e *c16) Gen(rng *RNG, tier string) []Case {
 	// malformed stream
 	cases = append(cases, Case{Tag: "malformed", Lines: []string{"conc", "conc run", "uconc run GetTag 1 1 0 0 R0,R1", "uconc run GetBlob 1 2 0 0 R0", "uconc run GetBlob 1 1 0 0 R0,Q", "uconc walk GetBlob 1 1 0 0 R0"}})
 	return cases
+}
+
+// c16Simul: the fixed scenarios with two simultaneous events (reps per entry point; odd repetitions start
+// the two goroutines in the other order). 52 per entry point. Every scenario opens both gates somewhere:
+// the model's final states are those where nothing can move any more.
+var c16Simul = []struct {
+	ok0, ok1, s0, s1 bool
+	evs              string
+	reps             int
+}{
+	{true, true, false, false, "P", 12},      // ok0 | ok1
+	{false, false, false, false, "P", 6},     // e0 | e1
+	{true, false, false, false, "P", 2},      // ok0 whichever answer main takes first
+	{false, true, false, false, "P", 2},      // ok1
+	{true, true, false, false, "PX0,R1", 6},  // ok0 | ctx (| ok1)
+	{true, true, false, false, "PX1,R0", 6},  // ok1 | ctx (| ok0)
+	{true, false, false, false, "PX0,R1", 4}, // ok0 | ctx
+	{false, true, false, false, "PX1,R0", 4}, // ok1 | ctx
+	{false, true, false, false, "PX0,R1", 2}, // the failure and the cancel together
+	{true, false, false, false, "PX1,R0", 2},
+	{true, true, false, true, "PX0,R1", 2}, // the other member returns on cancellation
+	{true, true, true, false, "PX1,R0", 2},
+	{true, true, false, false, "X,P", 2}, // cancelled before both answer together
+}
+
+// c16SwapStart: the same events with the two goroutines of every simultaneous event started in the other order.
+func c16SwapStart(evs []string) []string {
+	out := make([]string, len(evs))
+	for i, ev := range evs {
+		out[i] = ev
+		if strings.HasPrefix(ev, "P") {
+			if strings.HasSuffix(ev, "r") {
+				out[i] = strings.TrimSuffix(ev, "r")
+			} else {
+				out[i] = ev + "r"
+			}
+		}
+	}
+	return out
 }
 
 // ---- oracle ----
@@ -543,8 +656,12 @@ func (e *c16) askModel(queries []string) {
 		return
 	}
 	lines := strings.Split(strings.TrimRight(string(out), "\n"), "\n")
+	if len(lines) != len(queries) {
+		return // not one answer per query: no answer can be attributed
+	}
 	for i, q := range queries {
-		if i < len(lines) {
+		// "bad-op" (a driver that does not know the scenario language) or an empty line is no answer
+		if lines[i] != "" && lines[i] != "bad-op" {
 			e.allowed[q] = lines[i]
 		}
 	}
@@ -608,7 +725,7 @@ func (e *c16) Oracle(c Case, impl []string) []Failure {
 			if ev == "W" {
 				break
 			}
-			if ev == "X" {
+			if ev == "X" || strings.HasPrefix(ev, "PX") {
 				cancelBeforeReturn = true
 			}
 		}
@@ -662,23 +779,64 @@ func (e *c16) Oracle(c Case, impl []string) []Failure {
 			fail("c16-goroutine-left", "no_goroutine_left", "leak=0")
 		}
 		// membership in the set of observations the transition system allows
-		if set, ok := e.modelAllowed(entry, ok0, ok1, s0, s1, evs); ok && !nest {
-			obs := fmt.Sprintf("ret=%s closed=%s ctx=%s", ret, f["closed"], f["ctx"])
-			in := false
-			for _, a := range strings.Split(set, "|") {
-				in = in || a == obs
-			}
-			if !in {
-				fail("c16-not-allowed-by-model", "model_observation_set", set)
+		if !nest {
+			set, ok := e.modelAllowed(entry, ok0, ok1, s0, s1, evs)
+			if !ok {
+				// no driver, a driver that failed, or one that has no answer for this scenario: the membership
+				// check did not happen, which is not the same as having passed
+				fail("c16-model-answer-missing", "model_observation_set", "the model's set of allowed observations for "+c16ModelQuery(entry, ok0, ok1, s0, s1, evs))
+			} else {
+				obs := fmt.Sprintf("ret=%s closed=%s ctx=%s", ret, f["closed"], f["ctx"])
+				in := false
+				for _, a := range strings.Split(set, "|") {
+					in = in || a == obs
+				}
+				if !in {
+					fail("c16-not-allowed-by-model", "model_observation_set", set)
+				}
 			}
 		}
 	}
 	return fs
 }
 
-func (*c16) NonTrivial(c Case, impl []string) (bool, string) {
-	if len(impl) == 0 || !strings.HasPrefix(impl[0], "ret=") {
+// NonTrivial: the bucket is <tag>:ret=…; where the model allows more than one observation for the scenario
+// the bucket also says how many, and for the scenarios with simultaneous events it names the scenario and
+// the observation seen, so that the distribution is the histogram of what was seen per scenario:
+//
+//	simul:GetBlob:1100:P [2 allowed] saw ret=ok1 closed=11 ctx=11    (count)
+//
+// Seeing only one of the allowed observations is not a failure: which one happens is the scheduler's choice.
+func (e *c16) NonTrivial(c Case, impl []string) (bool, string) {
+	if len(impl) == 0 || len(c.Lines) == 0 || !strings.HasPrefix(impl[0], "ret=") {
 		return false, "malformed"
 	}
-	return true, c.Tag + ":" + strings.Fields(impl[0])[0]
+	fields := strings.Fields(impl[0])
+	bucket := c.Tag + ":" + fields[0]
+	entry, ok0, ok1, s0, s1, evs, good := c16Parse(c.Lines[0])
+	if !good || c16IsNest(c.Lines[0]) || len(fields) < 3 {
+		return true, bucket
+	}
+	set, ok := e.modelAllowed(entry, ok0, ok1, s0, s1, evs)
+	if !ok {
+		return true, bucket
+	}
+	n := len(strings.Split(set, "|"))
+	simul := false
+	for _, ev := range evs {
+		simul = simul || strings.HasPrefix(ev, "P")
+	}
+	switch {
+	case n > 1 && simul:
+		sw := c16SwapStart(evs)
+		name := strings.Join(evs, ",")
+		if strings.Join(sw, ",") < name { // Pr and P are one scenario
+			name = strings.Join(sw, ",")
+		}
+		t := strings.Split(c.Lines[0], " ")
+		return true, fmt.Sprintf("%s:%s%s%s%s:%s [%d allowed] saw %s", c.Tag, t[3], t[4], t[5], t[6], name, n, strings.Join(fields[:3], " "))
+	case n > 1:
+		return true, fmt.Sprintf("%s [%d allowed]", bucket, n)
+	}
+	return true, bucket
 }
